@@ -217,7 +217,7 @@ def interleave_items(tier, optlist, same_option_pairs=True):
 
 def run_lp_check(pid, level, tier, judge, rule, *, getters=("short", "long"),
                  conform_rate=None, extra=None, vacuity=None, chunksize=1,
-                 interleave_opts=None):
+                 interleave_opts=None, extra_work=None):
     """Shared main() of the LP-mode checks."""
     from . import evidence, pool
     from .families import lp_items
@@ -236,6 +236,11 @@ def run_lp_check(pid, level, tier, judge, rule, *, getters=("short", "long"),
         desc.append({"family": "two Solver objects alive at once (both constructed, then solved "
                                "in either order): %d option vectors, all ordered pairs on each of "
                                "the small instances" % len(interleave_opts), "items": len(it)})
+    if extra_work:
+        wfn, witems, wdesc = extra_work
+        witems = list(witems)
+        tally.merge(pool.run(wfn, witems, chunksize=4))
+        desc.append({"family": wdesc, "items": len(witems)})
     c = tally.c
     coverage = {
         "states": c.get("executions", 0),
